@@ -7,10 +7,10 @@ from tracer.emit import Gen, close
 
 H = W = 2
 CLASSES = (('multiplane_loss', 'ml'), ('perceptual_multiplane_loss', 'pl'))
-CONFIGS = [(1, 1), (1, 2), (3, 1), (3, 3)]          # (channels, number of planes)
+CONFIGS = [(1, 1), (1, 2), (1, 3), (3, 1), (3, 3)]          # (channels, number of planes)
 SLICE_CONFIGS = [(1, 1), (3, 2), (1, 3)]            # (channels, number of planes N; N+1 positions)
 DARGS = shim.names('d', (H, W))
-TIE_STAGE1 = ['C16_TieA', 'C16_TieB', 'C16_TieC']
+TIE_STAGE1 = ['C16_TieA', 'C16_TieB', 'C16_TieC', 'C16_TieD']
 TIE_STAGE2 = ['C16_TieProps']
 SAMPLE_DEF = 'ml_c3n3_focus_1_0_1'
 
@@ -125,6 +125,50 @@ def self_check(g, rng, make_loss, slice_fn, log=print):
                                 if not close(g.evalf(name, env), float(arr[i, ch, y, x]), 1e-6, 1e-7):
                                     bad += 1
                                     if bad <= 5: log('self-check mismatch', name, g.evalf(name, env), float(arr[i, ch, y, x]))
+    # add_defocus_blur: the operator `blur k p` is evaluated with odak's own kernel builder and torch's conv2d
+    from odak.learn.tools import generate_2d_gaussian
+
+    def blur_fn(k, p):
+        def f(a, b, c, d):
+            ker = generate_2d_gaussian([BLUR_SIZE, BLUR_SIZE], [k, k])
+            ker = (ker / torch.sum(ker)).unsqueeze(0).unsqueeze(0)
+            y = torch.nn.functional.conv2d(torch.tensor([[[[a, b], [c, d]]]], dtype=torch.float32), ker, padding='same')
+            return float(y[0, 0, p // 2, p % 2])
+        return f
+    for C, npl in DEFOCUS_CONFIGS:
+        for rep in range(3):
+            img = np.array([[[rng.randint(1, 256) / 256.0 for _ in range(W)] for _ in range(H)] for _ in range(C)])
+            planes = list(range(npl)) + [rng.randint(0, npl - 1) for _ in range(H * W - npl)]
+            rng.shuffle(planes)                                   # every plane owns a pixel: all guards hold
+            dep = np.array([min(1.0, max(0.0, (k + rng.uniform(-0.4, 0.4)) / (npl - 1))) for k in planes]).reshape(H, W)
+            mult = rng.choice([1.0, 1.5, 0.5])
+            L = make_loss('multiplane_loss', torch.tensor(img, dtype=torch.float32), torch.tensor(dep, dtype=torch.float32), npl, 'defocus', BLUR_SIZE, 1.0, mult)
+            targets, _, _ = L.get_targets()
+            env = {'mult': mult}
+            for k in range(npl):
+                for p in range(H * W):
+                    env['blur %d%%nat %d%%nat' % (k, p)] = blur_fn(k, p)
+            for ch in range(C):
+                for y in range(H):
+                    for x in range(W):
+                        env['x_%d_%d_%d' % (ch, y, x)] = img[ch, y, x]
+            for y in range(H):
+                for x in range(W):
+                    env['d_%d_%d' % (y, x)] = float(np.float32(dep[y, x]))
+            pre = 'df_c%dn%d' % (C, npl)
+            for ch in range(C):
+                for j in range(npl):
+                    n += 1
+                    if not g.evalf('%s_guard_%d_%d' % (pre, j, ch), env) > 0:
+                        bad += 1; log('self-check: guard not positive', pre, j, ch)
+                for i in range(npl):
+                    for y in range(H):
+                        for x in range(W):
+                            n += 1
+                            name = '%s_target_%d_%d_%d_%d' % (pre, i, ch, y, x)
+                            if not close(g.evalf(name, env), float(targets[i, ch, y, x]), 1e-5, 1e-6):
+                                bad += 1
+                                if bad <= 5: log('self-check mismatch', name, g.evalf(name, env), float(targets[i, ch, y, x]))
     return bad, n
 
 
